@@ -12,6 +12,7 @@ import Cjet.Cjson.Loops
 import Cjet.Cjson.Writes
 import Cjet.Cjson.Roundtrip
 import Cjet.Cjson.Utf16
+import Cjet.Cjson.Trees
 
 namespace Cjet.Props.Cjson
 open Cjet Cjet.Cjson
@@ -191,6 +192,57 @@ theorem printed_is_valid_json_text (g : Bool) (num : Bytes → Bytes) (t : Tree)
     (hp : t.Printable num) (hd : t.depth ≤ nestingLimit) :
     ∃ t', parseG g (printValue num t) = .ok t' (printValue num t).length :=
   ⟨_, print_parse_tree_roundtrip_given_number_oracle_partial g num t hp hd⟩
+
+/-- Trees without numbers - full strength, no oracle: every tree whose strings are C strings and that is nested at
+    most CJSON_NESTING_LIMIT deep is parsed back identically from its printed text, which is consumed entirely.
+    (Duplicate member names, empty names, every byte value 0x01..0xFF in strings are covered.) -/
+theorem print_parse_tree_roundtrip (g : Bool) (num : Bytes → Bytes) (t : Tree) (hn : t.hasNum = false)
+    (hs : t.StrOk) (hd : t.depth ≤ nestingLimit) :
+    parseG g (printValue num t) = .ok t (printValue num t).length := by
+  have hp := Tree.printable_of num t hs (Tree.allNum_of_noNum _ t hn)
+  have := print_parse_tree_roundtrip_given_number_oracle_partial g num t hp hd
+  rw [Tree.mapNum_id num t hn] at this
+  exact this
+
+example : (Tree.obj [([0x61], .str [0x01, 0xFF]), ([0x61], .arr [.null, .tru])]).hasNum = false ∧
+    (Tree.obj [([0x61], .str [0x01, 0xFF]), ([0x61], .arr [.null, .tru])]).StrOk := by
+  refine ⟨by decide, ?_⟩
+  simp only [Tree.StrOk, Tree.StrOkMembers, Tree.StrOkList, nulFree]
+  decide
+
+/-- Every string and member name of a tree the parser returns is a C string (what is stored behind a `\u0000`
+    is cut off, as the daemon's strlen/strcmp see it). -/
+theorem parsed_tree_strings_are_c_strings (inp : Bytes) (g : Bool) (fuel : Nat) (t : Tree) (e : Nat)
+    (h : parseWith inp g fuel = .ok t e) : t.StrOk := by
+  unfold parseWith at h
+  split at h
+  · rename_i t' b hb
+    simp only [Outcome.ok.injEq] at h
+    obtain ⟨rfl, _⟩ := h
+    exact parseRes_strOk hb
+  · cases h
+  · cases h
+  · cases h
+
+/-- The daemon's pass-through, number-free case: whatever text was accepted (lenient or not), printing the parsed
+    tree and parsing that text again gives the same tree. -/
+theorem parse_print_parse_idempotent (inp : Bytes) (g g' : Bool) (fuel : Nat) (num : Bytes → Bytes) (t : Tree)
+    (e : Nat) (h : parseWith inp g fuel = .ok t e) (hn : t.hasNum = false) :
+    parseG g' (printValue num t) = .ok t (printValue num t).length :=
+  print_parse_tree_roundtrip g' num t hn (parsed_tree_strings_are_c_strings inp g fuel t e h)
+    (nesting_bounded inp g fuel t e h)
+
+example : (match parseG true [0x5B, 0x22, 0x5C, 0x75, 0x30, 0x30, 0x65, 0x39, 0x22, 0x5D, 0x20] with
+    | .ok t 10 => !t.hasNum | _ => false) = true := by decide +kernel
+
+/-- The same with numbers, under the oracle hypothesis that every number token of the parsed tree prints as a
+    complete number token: the tree comes back with the tokens replaced by their printed text. -/
+theorem parse_print_parse_given_number_oracle_partial (inp : Bytes) (g g' : Bool) (fuel : Nat) (num : Bytes → Bytes)
+    (t : Tree) (e : Nat) (h : parseWith inp g fuel = .ok t e) (hnum : t.AllNum (fun tok => NumTok (num tok))) :
+    parseG g' (printValue num t) = .ok (t.mapNum num) (printValue num t).length :=
+  print_parse_tree_roundtrip_given_number_oracle_partial g' num t
+    (Tree.printable_of num t (parsed_tree_strings_are_c_strings inp g fuel t e h) hnum)
+    (nesting_bounded inp g fuel t e h)
 
 /-! ### numbers (the C library as an oracle) -/
 
